@@ -59,4 +59,5 @@ PROPERTY P_CommitIsQuorumBacked
 PROPERTY P_LeaderCompleteness
 PROPERTY P_TermMonotone
 PROPERTY P_ApplyProgress
+INVARIANT CompactedPrefixCovered
 CHECK_DEADLOCK FALSE
